@@ -298,10 +298,13 @@ def load_known_findings():
 
 
 def write_evidence(pid, tier, seed, level, coverage, assumptions, wall, violations):
-    os.makedirs(os.path.join(ROOT, 'evidence'), exist_ok=True)
+    # seeded-change runs (tools/seedtest.py, tools/seedregress.py) set VERIF_EVIDENCE_DIR so that the committed evidence, which must
+    # describe /repo itself, is never overwritten by a run against a patched tree
+    evdir = os.environ.get('VERIF_EVIDENCE_DIR') or os.path.join(ROOT, 'evidence')
+    os.makedirs(evdir, exist_ok=True)
     ev = {'property_id': pid, 'tier': tier, 'seed': seed, 'level': level, 'coverage': coverage,
           'assumptions': assumptions, 'wall_s': round(wall, 2), 'violations': violations}
-    with open(os.path.join(ROOT, 'evidence', f'{pid}.json'), 'w') as f:
+    with open(os.path.join(evdir, f'{pid}.json'), 'w') as f:
         json.dump(ev, f, indent=1)
     return ev
 
@@ -313,3 +316,36 @@ def write_replay(pid, name, obj):
     with open(p, 'w') as f:
         json.dump(obj, f, indent=1)
     return p
+
+
+# --------------------------------------------------------------------------------------------
+# corpus: minimised past failures (e.g. the failing cases of the seeded changes), run first on every check
+def jsonable(c):
+    """a case dict restricted to JSON-serialisable entries (plus the build it belongs to)"""
+    out = {}
+    for k, v in c.items():
+        if k in ('code', 'model', 'aux_code', 'iso', 'precomputed', 'from_corpus'): continue
+        try:
+            json.dumps(v); out[k] = v
+        except TypeError:
+            if isinstance(v, bytes): out[k] = {'__bytes__': v.hex()}
+    return out
+
+
+def load_corpus(pid, feats):
+    p = os.path.join(ROOT, 'corpus', f'{pid}.jsonl')
+    if not os.path.exists(p):
+        return []
+    out = []
+    tag = hash_of(feats) + '+' + stone_of(feats)
+    for l in open(p):
+        l = l.strip()
+        if not l: continue
+        c = json.loads(l)
+        if c.get('_build') and c['_build'] != tag: continue
+        if c.get('_needs') and not all(f in feats for f in c['_needs']): continue
+        for k, v in list(c.items()):
+            if isinstance(v, dict) and '__bytes__' in v: c[k] = bytes.fromhex(v['__bytes__'])
+        c['kind'] = c.get('kind', 'corpus'); c['from_corpus'] = True
+        out.append(c)
+    return out
